@@ -30,6 +30,9 @@ var ethPAllNetwork = htons(uint16(unix.ETH_P_ALL))
 
 // NewAFPacketSource creates a new AFPacketSource
 func NewAFPacketSource() (Source, error) {
+	if s, err, ok := verifNewSource(); ok {
+		return s, err
+	}
 	fd, err := unix.Socket(unix.AF_PACKET, unix.SOCK_RAW|unix.SOCK_NONBLOCK, int(ethPAllNetwork))
 	if err != nil {
 		return nil, fmt.Errorf("NewAFPacketSource failed to create socket: %w", err)
